@@ -232,8 +232,27 @@ func objects2(r *vlib.Run) {
 		}
 		// arrangement of the composite
 		var scene render3d.Object
-		arr := rng.Intn(5)
+		arr := rng.Intn(7)
 		switch arr {
+		case 5:
+			// a hierarchy assembled by the caller with wide branches (the BVH type documents "two or
+			// more children"): one flat node over all parts
+			node := &model3d.BVH[render3d.Object]{}
+			for _, p := range parts {
+				node.Branch = append(node.Branch, &model3d.BVH[render3d.Object]{Leaf: p})
+			}
+			scene = render3d.BVHToObject(node)
+		case 6:
+			// a binary root whose second child is a wide node
+			k := 1 + rng.Intn(n-1)
+			wide := &model3d.BVH[render3d.Object]{}
+			for _, p := range parts[k:] {
+				wide.Branch = append(wide.Branch, &model3d.BVH[render3d.Object]{Leaf: p})
+			}
+			if len(wide.Branch) == 1 {
+				wide = wide.Branch[0]
+			}
+			scene = render3d.BVHToObject(&model3d.BVH[render3d.Object]{Branch: []*model3d.BVH[render3d.Object]{model3d.NewBVHAreaDensity(parts[:k]), wide}})
 		case 0:
 			scene = render3d.JoinedObject(parts)
 		case 1:
